@@ -101,18 +101,23 @@ def encKey (E : Enc) (p : Str) (o : Option (Term β)) : Str :=
   | some (.iri _) => if p = rdfType then kType else (compactVocabIRI E p).1
   | _ => (compactVocabIRI E p).1
 
+/-- group `(member name, predicate, value)` triples by member name in order of first occurrence, as
+    `buildResource` does with `graphProperties` -/
+def groupByKey (kps : List (Str × Str × Tree β)) : List (Str × Str × List (Tree β)) :=
+  kps.foldl (fun acc e => alUpd (e.2.1, []) (fun x => (x.1, x.2 ++ [e.2.2])) acc e.1) []
+
 mutual
-/-- the tree of a statement list: statements grouped by member name in order of first occurrence, as
-    `buildResource` does -/
-def groupsOf (E : Enc) : List (TStmt β) → List (Str × Str × List (Tree β)) → List (Str × Str × List (Tree β))
-  | [], acc => acc
-  | .obj p o :: rest, acc =>
-    groupsOf E rest (alUpd (p, []) (fun e => (e.1, e.2 ++ [Tree.term o])) acc (encKey E p (some o)))
-  | .anon b p l :: rest, acc =>
-    let inner := groupsOf E l []
-    groupsOf E rest (alUpd (p, []) (fun e => (e.1, e.2 ++ [Tree.node (.anon b) (inner.map (·.2))])) acc
-      (encKey E p (none : Option (Term β))))
+/-- member name, predicate and tree of one statement -/
+def stmtTree (E : Enc) : TStmt β → Str × Str × Tree β
+  | .obj p o => (encKey E p (some o), p, .term o)
+  | .anon b p l => (encKey E p (none : Option (Term β)), p, .node (.anon b) ((groupByKey (stmtTrees E l)).map (·.2)))
+def stmtTrees (E : Enc) : List (TStmt β) → List (Str × Str × Tree β)
+  | [] => []
+  | x :: xs => stmtTree E x :: stmtTrees E xs
 end
+
+/-- the groups of a statement list -/
+def groupsOf (E : Enc) (st : List (TStmt β)) : List (Str × Str × List (Tree β)) := groupByKey (stmtTrees E st)
 
 /-- the forest the encoder's document is expected to denote (the certificate): one default-graph block
     with a node object per exported resource, in the order `ord` -/
@@ -128,7 +133,7 @@ def encForest (cfg : Cfg β) (d : List (DQuad β)) (ord : List (Term β)) : Opti
         | .iri v => .iri v
         | .bnode b => if B.refCount b == 0 then .anon b else .named b
         | .lit _ _ _ => .iri []
-      Tree.node id ((groupsOf E st []).map (·.2))) (B.roots Opts.default ord)).map fun ns => [(none, ns)]
+      Tree.node id ((groupsOf E st).map (·.2))) (B.roots Opts.default ord)).map fun ns => [(none, ns)]
 
 /-- the counter at which the entries of the encoder's document start: a single item is the document
     itself, several items sit in an `@graph` whose wrapper takes a blank node first -/
